@@ -10,7 +10,8 @@ THEOREMS = ["C12_seek_eq_play", "C12_same_future", "C12_skip_stopped", "alive_an
             "C12_example_alive", "C12_example_lands_inside", "C12_seek_eq_play_noerr_clean", "exSong_endsClean",
             "C12_played_settled", "C12_seek_eq_play_from", "C12_seek_eq_play_after_play", "C12_seek_eq_play_from_noerr", "alive_of_le",
             "C12_example_from_lands", "noerr_of_flat", "C12_seek_eq_play_flat", "C12_seek_eq_play_flat_enabled",
-            "C12_seek_eq_play_flat_after_play", "flatRoot_flat", "C12_example_flat_lands"]
+            "C12_seek_eq_play_flat_after_play", "flatRoot_flat", "C12_example_flat_lands",
+            "noerr_of_flatL", "C12_seek_eq_play_flatL", "C12_seek_eq_play_flatL_enabled", "flatLRoot_flatL", "C12_example_flatL_lands"]
 LEVEL = "proof"
 STREAM = "seek.obs"
 CHUNK = 60
@@ -32,19 +33,21 @@ LEVEL_TEXT = ("Machine-checked theorems over the Lean model of Player::skip_tick
               "PLATFORM -- and fewer than 100000 events): noerr_of_flat proves by an invariant over step_event / the fetch loop / play_tick that no error is ever recorded and the step "
               "budget is never exhausted, for every song, platform table and tick count; hence C12_seek_eq_play_flat: skip_ticks(n) and n+1 play_tick()s agree on obs with NO aliveness "
               "or no-error hypothesis (whole-state equality when still enabled: C12_seek_eq_play_flat_enabled; after playing: C12_seek_eq_play_flat_after_play; instance flatRoot_flat, "
-              "C12_example_flat_lands).")
+              "C12_example_flat_lands). (3) The same for FlatL = Flat plus SEGNO (loop point) and explicit END events, fewer than 49000 events -- tracks that play forever: noerr_of_flatL "
+              "(the fetch loop is bounded through the zero-time guard of the root END: play_time is constant within one run, so at most one jump back per run, at most 2*length+3 "
+              "steps), C12_seek_eq_play_flatL, C12_seek_eq_play_flatL_enabled; instance flatLRoot_flatL, C12_example_flatL_lands (seek 20 lands in the ninth pass).")
 LEVEL_NOTE = ("Trusted: Lean kernel (propext, Classical.choice, Quot.sound), Model/PlayerCh.lean + Model/Player.lean (agreement with player.cpp by differential testing), the step budget "
               "of the inner fetch loop (exhaustion would surface as an error state and is excluded by the no-error hypothesis; never observed). `event`, note_count and rest_count are "
               "outputs, not state. Seeks beyond the end of a finished track are outside the property (n up to the track length): there the two real paths differ in play_time exactly as "
               "the model does (skip_ticks adds the remaining distance, play_tick does not count on a stopped player); the spec oracle skips those n, the correspondence compares them. "
-              "Round 3: for Flat tracks no hypothesis is left (the <100000-events bound in Flat is a model artefact: a run of 100000 zero-length events would exhaust the model's step "
-              "budget, the C++ has none); for tracks with loops/calls/SEGNO/drum mode/PLATFORM the alive/no-error hypothesis remains and is decided per case by evaluation "
+              "Round 3: for Flat / FlatL tracks no hypothesis is left (the <100000 / <49000 events bound is a model artefact: a run of 100000 zero-length events would exhaust the model's step "
+              "budget, the C++ has none); for tracks with counted loops/calls/drum mode/PLATFORM the alive/no-error hypothesis remains and is decided per case by evaluation "
               "(correspondence + oracle). Seeks on non-fresh players are proved for settled states; the correspondence stream itself seeks fresh players only.")
 RULE = ("valid tracks from the song grammar (loops with breaks, calls, drum-mode routines, loop point, absolute and relative channel commands, tempo/volume mode switches, platform "
         "commands) x every seek distance n in 1..min(length,40) plus boundary distances; non-trivial = contains loop/call/drum/segno; distinct by request text")
 EXPLANATION = "theorem over the model for all songs and n; correspondence on private-state dumps of both real paths; spec oracle = equality of the two real dumps and futures"
-ASSUMPTIONS = ["track alive (enabled, no error) after n single ticks (one hypothesis; for the obs-level theorem only: no error after n ticks); discharged (no hypothesis) for Flat tracks (C12_seek_eq_play_flat)",
-               "inner fetch loops end within the step budget (proved for Flat tracks)",
+ASSUMPTIONS = ["track alive (enabled, no error) after n single ticks (one hypothesis; for the obs-level theorem only: no error after n ticks); discharged (no hypothesis) for Flat and FlatL tracks (C12_seek_eq_play_flat, C12_seek_eq_play_flatL)",
+               "inner fetch loops end within the step budget (proved for Flat and FlatL tracks)",
                "seek from a non-fresh player: the state is settled (proved for every state left by play_tick) and alive after n-1 further ticks"]
 
 CORPUS = [
